@@ -117,5 +117,27 @@ mod proofs {
     #[kani::proof] fn align_to_is_least_multiple() {
         align_to_case::<0>(); align_to_case::<1>(); align_to_case::<2>(); align_to_case::<3>(); align_to_case::<8>(); align_to_case::<24>(); align_to_case::<64>();
     }
+    /// C12: libclang can hand bindgen ANY numbers (bogus layouts on error recovery, templates, vendor extensions): the tracker must not panic
+    /// (overflow, division by zero, unwrap) whatever the sizes, alignments, offsets and flags are.  Nothing is asserted about the result.
+    #[kani::proof] #[kani::unwind(6)]
+    fn tracker_never_panics_on_arbitrary_layouts() {
+        // alignments: 0 (unknown) or a power of two, as every C/C++ compiler reports them; sizes and offsets are unconstrained
+        let any_layout = || { let s: usize = kani::any(); let e: u8 = kani::any(); kani::assume(s <= 1 << 32 && e <= 13); Layout::new(s, if e == 13 { 0 } else { 1usize << e }) };
+        let ctx = BindgenContext { opts: Options { force_explicit_padding: kani::any(), enable_cxx_namespaces: kani::any() }, ptr_size: if kani::any() { 4 } else { 8 } };
+        let comp = CompInfo { union_: kani::any(), rust_union: (kani::any(), kani::any()) };
+        let layout = any_layout();
+        let ty = Type { layout: if kani::any() { Some(layout) } else { None }, kind: TypeKind::Comp };
+        let mut t = StructLayoutTracker::new(&ctx, &comp, &ty, "s", FieldVisibilityKind::Public, kani::any());
+        if kani::any() { t.saw_vtable(); }
+        if kani::any() { t.saw_bitfield_unit(any_layout()); }
+        let off = |x: bool| if x { let o: usize = kani::any(); kani::assume(o <= 1 << 35); Some(o) } else { None };
+        let _ = t.saw_field_with_layout("a", any_layout(), off(kani::any()));
+        if kani::any() { t.saw_bitfield_unit(any_layout()); }
+        let _ = t.saw_field_with_layout("b", any_layout(), off(kani::any()));
+        if kani::any() { t.saw_flexible_array(); }
+        let _ = t.add_tail_padding("s", layout);
+        let _ = t.pad_struct(layout);
+        let _ = t.requires_explicit_align(layout);
+    }
     /*GENERATED*/
 }
